@@ -1,1 +1,790 @@
-//! Thread-level engine for the unmanaged pool (filled in below).
+//! Thread-level engine for the unmanaged pool (C05, C12).
+
+use std::collections::BTreeMap;
+use std::panic::{catch_unwind, AssertUnwindSafe};
+use std::sync::atomic::{AtomicBool, AtomicUsize, Ordering};
+use std::sync::{Arc, Mutex};
+use std::time::Duration;
+
+use deadpool::unmanaged::{Object, Pool, PoolError};
+use vh_common::{panic_message, Json, Violation};
+
+use super::*;
+
+#[derive(Clone, Copy, Debug, PartialEq, Eq)]
+pub struct UInfo {
+    /// the pool is responsible for the object (it was added and not handed back)
+    pub in_pool_care: bool,
+    pub destructed: bool,
+}
+
+pub struct USh {
+    pub prop: &'static str,
+    pub objs: Mutex<Vec<UInfo>>,
+    pub close_started: AtomicBool,
+    pub violations: Mutex<Vec<Violation>>,
+    pub foreign: AtomicUsize,
+    pub events: AtomicUsize,
+}
+
+impl USh {
+    pub fn new(prop: &'static str) -> Arc<USh> {
+        Arc::new(USh {
+            prop,
+            objs: Mutex::new(Vec::new()),
+            close_started: AtomicBool::new(false),
+            violations: Mutex::new(Vec::new()),
+            foreign: AtomicUsize::new(0),
+            events: AtomicUsize::new(0),
+        })
+    }
+    pub fn viol(&self, props: &[&'static str], oracle: &'static str, msg: String) {
+        if props.contains(&self.prop) || props.contains(&"*") {
+            self.violations.lock().unwrap().push(Violation { prop: self.prop, oracle, msg });
+        } else {
+            let _ = self.foreign.fetch_add(1, Ordering::SeqCst);
+        }
+    }
+    pub fn new_obj(self: &Arc<Self>) -> UTObj {
+        let mut o = self.objs.lock().unwrap();
+        o.push(UInfo { in_pool_care: false, destructed: false });
+        UTObj { id: (o.len() - 1) as u32, sh: self.clone() }
+    }
+    fn care(&self, id: u32, v: bool) {
+        self.objs.lock().unwrap()[id as usize].in_pool_care = v;
+    }
+}
+
+pub struct UTObj {
+    pub id: u32,
+    sh: Arc<USh>,
+}
+impl Drop for UTObj {
+    fn drop(&mut self) {
+        let _ = self.sh.events.fetch_add(1, Ordering::Relaxed);
+        let mut o = self.sh.objs.lock().unwrap();
+        let i = &mut o[self.id as usize];
+        i.destructed = true;
+        let care = i.in_pool_care;
+        drop(o);
+        if care && !self.sh.close_started.load(Ordering::SeqCst) {
+            self.sh.viol(&["C05"], "object_dropped_by_open_pool", format!("u{} was destroyed while the open pool was responsible for it", self.id));
+        }
+    }
+}
+
+pub type UPool = Pool<UTObj>;
+
+#[derive(Clone, Copy, Debug, PartialEq, Eq)]
+pub enum UAOp {
+    TryGet,
+    GetBlock,
+    AddBlock,
+    TryAdd,
+    TryRemove,
+    Return,
+    Take,
+    Close,
+}
+
+#[derive(Clone, Copy, Debug, PartialEq, Eq)]
+pub enum UBOp {
+    TryGetHold,
+    TryGetReturn,
+    TryAdd,
+    TryRemove,
+    ReturnMain,
+    TakeMain,
+    Close,
+    Status,
+    GetThenCancel,
+    AddThenCancel,
+}
+
+#[derive(Clone, Copy, Debug, PartialEq, Eq)]
+pub struct UState {
+    pub max: usize,
+    pub in_pool: usize,
+    pub main_held: usize,
+}
+
+#[derive(Clone, Debug)]
+pub struct UScenario {
+    pub state: UState,
+    pub a: UAOp,
+    pub point: &'static str,
+    pub hit: usize,
+    pub b: UBOp,
+}
+impl UScenario {
+    pub fn sig(&self) -> String {
+        format!("max={};in={};held={};A={:?}@{}#{};B={:?}", self.state.max, self.state.in_pool, self.state.main_held, self.a, self.point, self.hit, self.b)
+    }
+}
+
+pub fn ustates() -> Vec<UState> {
+    vec![
+        UState { max: 1, in_pool: 0, main_held: 0 },
+        UState { max: 1, in_pool: 1, main_held: 0 },
+        UState { max: 1, in_pool: 0, main_held: 1 },
+        UState { max: 2, in_pool: 1, main_held: 0 },
+        UState { max: 2, in_pool: 1, main_held: 1 },
+        UState { max: 2, in_pool: 2, main_held: 0 },
+        UState { max: 2, in_pool: 0, main_held: 2 },
+    ]
+}
+pub fn ua_ops(s: &UState) -> Vec<UAOp> {
+    let mut v = vec![UAOp::TryGet, UAOp::GetBlock, UAOp::AddBlock, UAOp::TryAdd, UAOp::TryRemove, UAOp::Close];
+    if s.in_pool > 0 {
+        v.push(UAOp::Return);
+        v.push(UAOp::Take);
+    }
+    v
+}
+pub fn ub_ops(s: &UState) -> Vec<UBOp> {
+    let mut v = vec![UBOp::TryGetHold, UBOp::TryGetReturn, UBOp::TryAdd, UBOp::TryRemove, UBOp::Close, UBOp::Status, UBOp::GetThenCancel, UBOp::AddThenCancel];
+    if s.main_held > 0 {
+        v.push(UBOp::ReturnMain);
+        v.push(UBOp::TakeMain);
+    }
+    v
+}
+
+pub struct USweepOut {
+    pub violations: Vec<Violation>,
+    pub foreign: usize,
+    pub reached: bool,
+    pub trace_hash: u64,
+    pub inconclusive: Option<String>,
+    pub desc: Json,
+    pub events: u64,
+    pub end_state: u64,
+}
+
+enum UARes {
+    Nothing,
+    Obj(Object<UTObj>),
+    Back(UTObj),
+    Err(String),
+    Cancelled,
+    Panicked(String),
+}
+
+fn block_flag<F: std::future::Future>(fut: F, cancel: &AtomicBool, pending: &AtomicBool) -> Option<F::Output> {
+    let waker = std::task::Waker::from(Arc::new(UWake(std::thread::current())));
+    let mut cx = std::task::Context::from_waker(&waker);
+    let mut fut = std::pin::pin!(fut);
+    loop {
+        if let std::task::Poll::Ready(v) = fut.as_mut().poll(&mut cx) {
+            return Some(v);
+        }
+        pending.store(true, Ordering::SeqCst);
+        if cancel.load(Ordering::SeqCst) {
+            return None;
+        }
+        std::thread::park_timeout(Duration::from_millis(if cfg!(miri) { 0 } else { 2 }));
+        if cfg!(miri) {
+            std::thread::yield_now();
+        }
+    }
+}
+struct UWake(std::thread::Thread);
+impl std::task::Wake for UWake {
+    fn wake(self: Arc<Self>) {
+        self.0.unpark();
+    }
+}
+
+pub fn udiscover(prop: &'static str, state: UState, a: UAOp) -> Vec<(&'static str, usize)> {
+    let sc = UScenario { state, a, point: "", hit: 0, b: UBOp::Status };
+    let ctl = Ctl::new(CtlMode::Record, "", 0);
+    let _ = run_inner(prop, &sc, &ctl, true);
+    let mut counts: BTreeMap<&'static str, usize> = BTreeMap::new();
+    let mut out = Vec::new();
+    for (role, name) in ctl.trace.lock().unwrap().iter() {
+        if *role == ROLE_A {
+            let c = counts.entry(name).or_insert(0);
+            out.push((*name, *c));
+            *c += 1;
+        }
+    }
+    out
+}
+
+pub fn run_usweep(prop: &'static str, sc: &UScenario) -> USweepOut {
+    let ctl = Ctl::new(CtlMode::Sweep, sc.point, sc.hit);
+    run_inner(prop, sc, &ctl, false)
+}
+
+fn run_inner(prop: &'static str, sc: &UScenario, ctl: &Arc<Ctl>, record_only: bool) -> USweepOut {
+    let st = sc.state;
+    let sh = USh::new(prop);
+    let pool: UPool = Pool::new(st.max);
+    let mut log = vec![format!("scenario {}", sc.sig())];
+    let mut main_held: Vec<Object<UTObj>> = Vec::new();
+    let mut a_obj: Option<Object<UTObj>> = None;
+    for _ in 0..(st.in_pool + st.main_held).min(st.max) {
+        let o = sh.new_obj();
+        sh.care(o.id, true);
+        pool.try_add(o).map_err(|_| ()).expect("setup add");
+    }
+    for _ in 0..st.main_held.min(st.max) {
+        main_held.push(pool.try_get().expect("setup get"));
+    }
+    if matches!(sc.a, UAOp::Return | UAOp::Take) {
+        a_obj = pool.try_get().ok();
+    }
+    let cancel = Arc::new(AtomicBool::new(false));
+    let done = Arc::new(AtomicBool::new(false));
+    let pending = Arc::new(AtomicBool::new(false));
+    let a_handle = {
+        let (pool, sh, ctl, cancel, done, pending) = (pool.clone(), sh.clone(), ctl.clone(), cancel.clone(), done.clone(), pending.clone());
+        let a = sc.a;
+        std::thread::spawn(move || {
+            enter(&ctl, ROLE_A);
+            let r = catch_unwind(AssertUnwindSafe(|| match a {
+                UAOp::TryGet => match pool.try_get() {
+                    Ok(o) => UARes::Obj(o),
+                    Err(e) => UARes::Err(format!("{:?}", e)),
+                },
+                UAOp::GetBlock => match block_flag(pool.get(), &cancel, &pending) {
+                    Some(Ok(o)) => UARes::Obj(o),
+                    Some(Err(e)) => UARes::Err(format!("{:?}", e)),
+                    None => UARes::Cancelled,
+                },
+                UAOp::AddBlock => {
+                    let o = sh.new_obj();
+                    let id = o.id;
+                    sh.care(id, true);
+                    // if the call is cancelled the object is dropped with the future: declare it ours again first
+                    let fut = pool.add(o);
+                    let waker = std::task::Waker::from(Arc::new(UWake(std::thread::current())));
+                    let mut cx = std::task::Context::from_waker(&waker);
+                    let mut fut = Box::pin(fut);
+                    loop {
+                        match fut.as_mut().poll(&mut cx) {
+                            std::task::Poll::Ready(Ok(())) => break UARes::Nothing,
+                            std::task::Poll::Ready(Err((o, e))) => {
+                                sh.care(o.id, false);
+                                if o.id != id {
+                                    sh.viol(&["C05", "C12"], "add_handed_back_other", format!("add(u{}) handed back u{}", id, o.id));
+                                }
+                                if !matches!(e, PoolError::Closed) {
+                                    sh.viol(&["C05", "C12"], "add_error_unjustified", format!("add(u{}) failed with {:?}", id, e));
+                                }
+                                break UARes::Back(o);
+                            }
+                            std::task::Poll::Pending => {
+                                pending.store(true, Ordering::SeqCst);
+                                if cancel.load(Ordering::SeqCst) {
+                                    sh.care(id, false);
+                                    drop(fut);
+                                    break UARes::Cancelled;
+                                }
+                                std::thread::park_timeout(Duration::from_millis(2));
+                            }
+                        }
+                    }
+                }
+                UAOp::TryAdd => {
+                    let o = sh.new_obj();
+                    let id = o.id;
+                    sh.care(id, true);
+                    match pool.try_add(o) {
+                        Ok(()) => UARes::Nothing,
+                        Err((o, e)) => {
+                            sh.care(o.id, false);
+                            if o.id != id {
+                                sh.viol(&["C05", "C12"], "add_handed_back_other", format!("try_add(u{}) handed back u{}", id, o.id));
+                            }
+                            if matches!(e, PoolError::NoRuntimeSpecified) {
+                                sh.viol(&["C12"], "add_error_unjustified", format!("try_add failed with {:?}", e));
+                            }
+                            UARes::Back(o)
+                        }
+                    }
+                }
+                UAOp::TryRemove => match pool.try_remove() {
+                    Ok(o) => {
+                        sh.care(o.id, false);
+                        UARes::Back(o)
+                    }
+                    Err(e) => UARes::Err(format!("{:?}", e)),
+                },
+                UAOp::Return => {
+                    drop(a_obj);
+                    UARes::Nothing
+                }
+                UAOp::Take => match a_obj {
+                    Some(o) => {
+                        let id = o.id;
+                        // declared before the call: from now on the harness owns it
+                        sh.care(id, false);
+                        UARes::Back(Object::take(o))
+                    }
+                    None => UARes::Nothing,
+                },
+                UAOp::Close => {
+                    sh.close_started.store(true, Ordering::SeqCst);
+                    pool.close();
+                    UARes::Nothing
+                }
+            }));
+            leave();
+            done.store(true, Ordering::SeqCst);
+            match r {
+                Ok(v) => v,
+                Err(p) => UARes::Panicked(panic_message(&*p)),
+            }
+        })
+    };
+    let mut reached = false;
+    if !record_only {
+        let t0 = std::time::Instant::now();
+        loop {
+            if ctl.latch.has_arrived() {
+                reached = true;
+                break;
+            }
+            if done.load(Ordering::SeqCst) || pending.load(Ordering::SeqCst) || t0.elapsed() > Duration::from_millis(1500) {
+                break;
+            }
+            std::thread::yield_now();
+        }
+    }
+    enter(ctl, ROLE_CTRL);
+    let mut b_held: Vec<Object<UTObj>> = Vec::new();
+    let mut externals: Vec<UTObj> = Vec::new();
+    let mut b_res = String::new();
+    if !record_only {
+        let r = catch_unwind(AssertUnwindSafe(|| match sc.b {
+            UBOp::TryGetHold | UBOp::TryGetReturn => match pool.try_get() {
+                Ok(o) => {
+                    if sc.b == UBOp::TryGetHold {
+                        b_held.push(o);
+                    }
+                    "ok".to_string()
+                }
+                Err(e) => format!("{:?}", e),
+            },
+            UBOp::TryAdd => {
+                let o = sh.new_obj();
+                let id = o.id;
+                sh.care(id, true);
+                match pool.try_add(o) {
+                    Ok(()) => "added".into(),
+                    Err((o, e)) => {
+                        sh.care(o.id, false);
+                        if o.id != id {
+                            sh.viol(&["C05", "C12"], "add_handed_back_other", format!("try_add(u{}) handed back u{}", id, o.id));
+                        }
+                        externals.push(o);
+                        format!("{:?}", e)
+                    }
+                }
+            }
+            UBOp::TryRemove => match pool.try_remove() {
+                Ok(o) => {
+                    sh.care(o.id, false);
+                    externals.push(o);
+                    "removed".into()
+                }
+                Err(e) => format!("{:?}", e),
+            },
+            UBOp::ReturnMain => {
+                drop(main_held.pop());
+                "returned".into()
+            }
+            UBOp::TakeMain => {
+                if let Some(o) = main_held.pop() {
+                    sh.care(o.id, false);
+                    externals.push(Object::take(o));
+                }
+                "taken".into()
+            }
+            UBOp::Close => {
+                sh.close_started.store(true, Ordering::SeqCst);
+                pool.close();
+                "closed".into()
+            }
+            UBOp::Status => format!("{:?}", pool.status()),
+            UBOp::GetThenCancel => match poll_once(pool.get()) {
+                Some(Ok(o)) => {
+                    b_held.push(o);
+                    "ok".into()
+                }
+                Some(Err(e)) => format!("{:?}", e),
+                None => "cancelled".into(),
+            },
+            UBOp::AddThenCancel => {
+                let o = sh.new_obj();
+                let id = o.id;
+                sh.care(id, true);
+                let mut fut = Box::pin(pool.add(o));
+                let waker = std::task::Waker::from(Arc::new(UWake(std::thread::current())));
+                let mut cx = std::task::Context::from_waker(&waker);
+                match fut.as_mut().poll(&mut cx) {
+                    std::task::Poll::Ready(Ok(())) => "added".into(),
+                    std::task::Poll::Ready(Err((o, e))) => {
+                        sh.care(o.id, false);
+                        externals.push(o);
+                        format!("{:?}", e)
+                    }
+                    std::task::Poll::Pending => {
+                        sh.care(id, false);
+                        drop(fut);
+                        "cancelled".into()
+                    }
+                }
+            }
+        }));
+        match r {
+            Ok(s) => b_res = s,
+            Err(p) => {
+                b_res = format!("panic: {}", panic_message(&*p));
+                sh.viol(&["C12", "*"], "operation_panicked", format!("operation {:?} panicked: {}", sc.b, panic_message(&*p)));
+            }
+        }
+    }
+    log.push(format!("B {:?} -> {}", sc.b, b_res));
+    ctl.latch.release();
+    main_held.clear();
+    b_held.clear();
+    let mut inconclusive = None;
+    if !done.load(Ordering::SeqCst) {
+        let t0 = std::time::Instant::now();
+        loop {
+            if done.load(Ordering::SeqCst) {
+                break;
+            }
+            let s = pool.status();
+            let closed = pool.is_closed();
+            // can A's pending call be satisfied by what is there?
+            let can = match sc.a {
+                UAOp::GetBlock => closed || s.available > 0,
+                UAOp::AddBlock => closed || s.size < s.max_size,
+                _ => true,
+            };
+            if !can {
+                cancel.store(true, Ordering::SeqCst);
+            }
+            if t0.elapsed() > Duration::from_secs(6) {
+                if can && matches!(sc.a, UAOp::GetBlock | UAOp::AddBlock) {
+                    sh.viol(&["C05", "C12"], "stranded_caller", format!("thread A {:?} still blocked after 6s at rest (closed={}, status={:?})", sc.a, closed, s));
+                } else {
+                    inconclusive = Some(format!("watchdog: A did not finish ({})", sc.sig()));
+                }
+                cancel.store(true, Ordering::SeqCst);
+                let t1 = std::time::Instant::now();
+                while !done.load(Ordering::SeqCst) && t1.elapsed() < Duration::from_secs(10) {
+                    std::thread::sleep(Duration::from_millis(1));
+                }
+                break;
+            }
+            std::thread::sleep(Duration::from_micros(200));
+        }
+    }
+    let a_res = a_handle.join().unwrap_or(UARes::Panicked("thread A died".into()));
+    leave();
+    if ctl.watchdog_fired.load(Ordering::SeqCst) > 0 {
+        inconclusive = Some(format!("latch watchdog fired ({})", sc.sig()));
+    }
+    match a_res {
+        UARes::Nothing | UARes::Cancelled => log.push("A -> done".into()),
+        UARes::Obj(o) => {
+            log.push(format!("A -> Ok(u{})", o.id));
+            drop(o);
+        }
+        UARes::Back(o) => {
+            log.push(format!("A -> got back u{}", o.id));
+            externals.push(o);
+        }
+        UARes::Err(e) => {
+            log.push(format!("A -> Err({})", e));
+            if e != "Timeout" && e != "Closed" {
+                sh.viol(&["C12"], "unexpected_error", format!("A {:?} failed with {}", sc.a, e));
+            }
+        }
+        UARes::Panicked(m) => {
+            log.push(format!("A -> PANIC {}", m));
+            sh.viol(&["C12", "*"], "operation_panicked", format!("operation {:?} panicked: {}", sc.a, m));
+        }
+    }
+    let end_state = match catch_unwind(AssertUnwindSafe(|| uend_state(&sh, &pool, &mut log))) {
+        Ok(h) => h,
+        Err(p) => {
+            sh.viol(&["C12", "*"], "later_call_panicked", format!("a pool call at rest panicked (poisoned by an earlier panic?): {}", panic_message(&*p)));
+            0
+        }
+    };
+    sh.close_started.store(true, Ordering::SeqCst); // teardown: the pool may drop what it still holds
+    drop(externals);
+    drop(pool);
+    let violations = std::mem::take(&mut *sh.violations.lock().unwrap());
+    let points = ctl.points_hit.load(Ordering::SeqCst);
+    USweepOut {
+        foreign: sh.foreign.load(Ordering::SeqCst),
+        reached,
+        trace_hash: ctl.trace_hash(),
+        inconclusive,
+        desc: Json::obj()
+            .with("engine", "uth_sweep")
+            .with("profile_prop", prop)
+            .with("scenario", sc.sig())
+            .with("log", log.iter().map(|s| Json::from(s.as_str())).collect::<Vec<_>>())
+            .with("trace", ctl.trace.lock().unwrap().iter().map(|(r, n)| Json::from(format!("{}:{}", if *r == ROLE_A { "A" } else { "B" }, n))).collect::<Vec<_>>()),
+        events: points as u64 + sh.events.load(Ordering::SeqCst) as u64 + 2,
+        end_state,
+        violations,
+    }
+}
+
+/// At rest: all threads joined, everything the harness held was returned.
+pub fn uend_state(sh: &Arc<USh>, pool: &UPool, log: &mut Vec<String>) -> u64 {
+    let st = pool.status();
+    let closed = pool.is_closed();
+    log.push(format!("at rest: {:?} closed={}", st, closed));
+    let in_care = sh.objs.lock().unwrap().iter().filter(|i| i.in_pool_care && !i.destructed).count();
+    let big = 1usize << 32;
+    if st.size >= big || st.available >= big || st.waiting >= big {
+        sh.viol(&["C05", "C12"], "status_wrapped", format!("status() wrapped: {:?}", st));
+        return 0;
+    }
+    if closed {
+        if in_care != 0 || st.size != 0 || st.available != 0 {
+            sh.viol(&["C12"], "closed_pool_holds_objects", format!("closed pool at rest keeps {} objects alive, status {:?}", in_care, st));
+        }
+        match pool.try_get() {
+            Err(PoolError::Closed) => {}
+            Ok(_) => sh.viol(&["C12"], "object_after_close", "try_get on the closed pool returned an object".into()),
+            Err(e) => sh.viol(&["C12"], "wrong_error_after_close", format!("try_get on the closed pool returned {:?}", e)),
+        }
+        let o = sh.new_obj();
+        let id = o.id;
+        match pool.try_add(o) {
+            Err((o, PoolError::Closed)) if o.id == id => {}
+            Err((_, e)) => sh.viol(&["C12"], "wrong_error_after_close", format!("try_add on the closed pool returned {:?}", e)),
+            Ok(()) => sh.viol(&["C12"], "add_to_closed_pool", "try_add on the closed pool succeeded".into()),
+        }
+    } else {
+        if st.size != in_care || st.available != in_care || st.waiting != 0 {
+            sh.viol(&["C05"], "status_at_rest", format!("at rest {:?} but the pool is responsible for {} live objects and nobody waits", st, in_care));
+        }
+        if in_care > st.max_size {
+            sh.viol(&["C05"], "over_max_size", format!("{} objects in the pool at rest, max_size {}", in_care, st.max_size));
+        }
+        // fill it up: exactly max_size - size further objects are accepted
+        let mut accepted = 0;
+        loop {
+            let o = sh.new_obj();
+            sh.care(o.id, true);
+            match pool.try_add(o) {
+                Ok(()) => accepted += 1,
+                Err((o, e)) => {
+                    sh.care(o.id, false);
+                    if !matches!(e, PoolError::Timeout) {
+                        sh.viol(&["C05"], "probe_add_error", format!("try_add at rest failed with {:?}", e));
+                    }
+                    break;
+                }
+            }
+            if accepted > st.max_size + 2 {
+                break;
+            }
+        }
+        if in_care + accepted != st.max_size {
+            sh.viol(&["C05"], "capacity_probe", format!("{} objects in the pool + {} more accepted != max_size {}", in_care, accepted, st.max_size));
+        }
+        // and every one of them can be taken out again
+        let mut out = Vec::new();
+        while let Ok(o) = pool.try_get() {
+            out.push(o);
+            if out.len() > st.max_size + 2 {
+                break;
+            }
+        }
+        if out.len() != in_care + accepted {
+            sh.viol(&["C05"], "objects_lost", format!("{} objects should be in the pool but {} could be taken out", in_care + accepted, out.len()));
+        }
+        log.push(format!("probe: accepted {}, drained {}", accepted, out.len()));
+        drop(out);
+    }
+    let mut h = vh_common::Hasher::default();
+    for x in [st.max_size, st.size, st.available, closed as usize, in_care] {
+        h.u64(x as u64);
+    }
+    h.0
+}
+
+// ------------------------------------------------------------------ chaos
+
+pub struct UChaosOut {
+    pub violations: Vec<Violation>,
+    pub foreign: usize,
+    pub trace_hash: u64,
+    pub points: usize,
+    pub desc: Json,
+    pub events: u64,
+    pub end_state: u64,
+    pub nontrivial: bool,
+}
+
+pub fn run_uchaos(prop: &'static str, threads: usize, ops: usize, max_size: usize, with_close: bool, seed: u64) -> UChaosOut {
+    let sh = USh::new(prop);
+    let pool: UPool = Pool::new(max_size);
+    let ctl = Ctl::new(CtlMode::Chaos, "", 0);
+    let blocked = Arc::new(AtomicUsize::new(0));
+    let mut handles = Vec::new();
+    for t in 0..threads {
+        let (pool, sh, ctl, blocked) = (pool.clone(), sh.clone(), ctl.clone(), blocked.clone());
+        handles.push(std::thread::spawn(move || {
+            enter(&ctl, 10 + t as u8);
+            thread_rng_seed(seed.wrapping_mul(1000).wrapping_add(t as u64));
+            let mut held: Vec<Object<UTObj>> = Vec::new();
+            let mut ext: Vec<UTObj> = Vec::new();
+            let mut log: Vec<String> = Vec::new();
+            let parks = if cfg!(miri) { 3 } else { 30 };
+            let park = Duration::from_micros(if cfg!(miri) { 0 } else { 300 });
+            let r = catch_unwind(AssertUnwindSafe(|| {
+                for _ in 0..ops {
+                    match thread_rng(|r| r.below(100)) {
+                        0..=19 => match block_on_cancel(pool.get(), parks, park) {
+                            Some(Ok(o)) => held.push(o),
+                            Some(Err(e)) => log.push(format!("get {:?}", e)),
+                            None => {
+                                let _ = blocked.fetch_add(1, Ordering::SeqCst);
+                            }
+                        },
+                        20..=29 => {
+                            if let Ok(o) = pool.try_get() {
+                                held.push(o)
+                            }
+                        }
+                        30..=44 => {
+                            let o = ext.pop().unwrap_or_else(|| sh.new_obj());
+                            let id = o.id;
+                            sh.care(id, true);
+                            match pool.try_add(o) {
+                                Ok(()) => log.push(format!("try_add u{}", id)),
+                                Err((o, _)) => {
+                                    sh.care(o.id, false);
+                                    if o.id != id {
+                                        sh.viol(&["C05", "C12"], "add_handed_back_other", format!("try_add(u{}) handed back u{}", id, o.id));
+                                    }
+                                    ext.push(o);
+                                }
+                            }
+                        }
+                        45..=54 => {
+                            let o = ext.pop().unwrap_or_else(|| sh.new_obj());
+                            let id = o.id;
+                            sh.care(id, true);
+                            let mut fut = Box::pin(pool.add(o));
+                            let waker = std::task::Waker::from(Arc::new(UWake(std::thread::current())));
+                            let mut cx = std::task::Context::from_waker(&waker);
+                            let mut n = 0;
+                            loop {
+                                match fut.as_mut().poll(&mut cx) {
+                                    std::task::Poll::Ready(Ok(())) => break,
+                                    std::task::Poll::Ready(Err((o, _))) => {
+                                        sh.care(o.id, false);
+                                        ext.push(o);
+                                        break;
+                                    }
+                                    std::task::Poll::Pending => {
+                                        n += 1;
+                                        if n > parks {
+                                            let _ = blocked.fetch_add(1, Ordering::SeqCst);
+                                            sh.care(id, false);
+                                            drop(fut);
+                                            break;
+                                        }
+                                        std::thread::park_timeout(park);
+                                    }
+                                }
+                            }
+                        }
+                        55..=64 => {
+                            if let Ok(o) = pool.try_remove() {
+                                sh.care(o.id, false);
+                                ext.push(o);
+                            }
+                        }
+                        65..=84 => {
+                            drop(held.pop());
+                        }
+                        85..=92 => {
+                            if let Some(o) = held.pop() {
+                                sh.care(o.id, false);
+                                ext.push(Object::take(o));
+                            }
+                        }
+                        93 => {
+                            if with_close && thread_rng(|r| r.chance(1, 3)) {
+                                sh.close_started.store(true, Ordering::SeqCst);
+                                pool.close();
+                                log.push("close".into());
+                            }
+                        }
+                        _ => {
+                            let s = pool.status();
+                            let big = 1usize << 32;
+                            if s.size >= big || s.available >= big || s.waiting >= big {
+                                sh.viol(&["C05", "C12"], "status_wrapped", format!("{:?}", s));
+                            }
+                        }
+                    }
+                }
+            }));
+            if let Err(p) = r {
+                sh.viol(&["C12", "*"], "operation_panicked", format!("a pool call panicked: {}", panic_message(&*p)));
+            }
+            let dr = catch_unwind(AssertUnwindSafe(move || drop(held)));
+            if dr.is_err() {
+                sh.viol(&["C12", "*"], "operation_panicked", "returning objects panicked".into());
+            }
+            leave();
+            (log, ext)
+        }));
+    }
+    let mut logs = Vec::new();
+    let mut exts = Vec::new();
+    for (t, h) in handles.into_iter().enumerate() {
+        match h.join() {
+            Ok((l, e)) => {
+                logs.push(Json::from(format!("thread {}: {}", t, l.join("; "))));
+                exts.push(e);
+            }
+            Err(_) => sh.viol(&["*"], "thread_died", format!("chaos thread {} died", t)),
+        }
+    }
+    let mut log = Vec::new();
+    let end_state = match catch_unwind(AssertUnwindSafe(|| uend_state(&sh, &pool, &mut log))) {
+        Ok(h) => h,
+        Err(p) => {
+            sh.viol(&["C12", "*"], "later_call_panicked", format!("a pool call at rest panicked (poisoned by an earlier panic?): {}", panic_message(&*p)));
+            0
+        }
+    };
+    sh.close_started.store(true, Ordering::SeqCst); // teardown
+    drop(exts);
+    drop(pool);
+    let points = ctl.points_hit.load(Ordering::SeqCst);
+    let violations = std::mem::take(&mut *sh.violations.lock().unwrap());
+    UChaosOut {
+        foreign: sh.foreign.load(Ordering::SeqCst),
+        trace_hash: ctl.trace_hash(),
+        points,
+        desc: Json::obj()
+            .with("engine", "uth_chaos")
+            .with("profile_prop", prop)
+            .with("seed", seed)
+            .with("config", format!("threads={} ops={} max_size={} close={}", threads, ops, max_size, with_close))
+            .with("threads", Json::Arr(logs))
+            .with("end", log.iter().map(|s| Json::from(s.as_str())).collect::<Vec<_>>()),
+        events: points as u64 + sh.events.load(Ordering::SeqCst) as u64,
+        end_state,
+        nontrivial: blocked.load(Ordering::SeqCst) > 0,
+        violations,
+    }
+}
